@@ -148,7 +148,13 @@ func genCase(t *rapid.T) Case {
 		c.Ops = append(c.Ops, Op{K: "campaign", I: i, TTL: ttl()}, Op{K: "write", I: i, W: "tso-init"})
 	}
 	for len(c.Ops) < nops {
-		switch k := rapid.IntRange(0, 32).Draw(t, "kind"); {
+		switch k := rapid.IntRange(0, 34).Draw(t, "kind"); {
+		case k >= 33:
+			// a TSO request that has to wait across the holder's local lease deadline
+			if rapid.Bool().Draw(t, "waitinit") {
+				c.Ops = append(c.Ops, Op{K: "write", Rel: "cur", I: who("ii"), W: "tso-init"})
+			}
+			c.Ops = append(c.Ops, Op{K: "tsowait", Rel: "cur", I: who("i"), N: rapid.IntRange(0, 4).Draw(t, "before"), T: rapid.IntRange(0, 2).Draw(t, "tick")})
 		case k >= 30 && c.Domain == "pd":
 			// id hand-over: the holder allocates, loses the record behind its back, the new owner
 			// extends the id window, then the old holder drains its window and keeps asking
@@ -228,6 +234,11 @@ type vclock struct {
 	off  [4]time.Duration
 	cur  int
 	byG  map[uint64]int // race mode: goroutine -> contender
+	// one-shot: when contender hookWho next sleeps inside the code under test, hookFn runs hookAt
+	// into that sleep (the background updater ticking while a TSO request waits)
+	hookWho int
+	hookAt  time.Duration
+	hookFn  func()
 }
 
 var curClock atomic.Value // *vclock (nil pointer = real time)
@@ -272,7 +283,28 @@ func clockSleep(d time.Duration) {
 		return
 	}
 	c.mu.Lock()
-	c.off[c.who()] += d
+	i := c.who()
+	if fn := c.hookFn; fn != nil && c.hookWho == i {
+		c.hookFn = nil
+		at := c.hookAt
+		if at > d {
+			at = d
+		}
+		c.off[i] += at
+		c.mu.Unlock()
+		fn()
+		c.mu.Lock()
+		c.off[i] += d - at
+		c.mu.Unlock()
+		return
+	}
+	c.off[i] += d
+	c.mu.Unlock()
+}
+
+func (c *vclock) arm(i int, at time.Duration, fn func()) {
+	c.mu.Lock()
+	c.hookWho, c.hookAt, c.hookFn = i, at, fn
 	c.mu.Unlock()
 }
 
@@ -1254,12 +1286,20 @@ func (w *world) checkAppliedWrites(evs []*rec) error {
 
 // ---------------------------------------------------------------- other ops
 
-func (w *world) doTSO(c *cont) error {
+func (w *world) doTSO(c *cont) error { return w.tsoReq(c, 1) }
+
+// tsoReq is one GenerateTSO of c. Clause (4): a timestamp may only be RETURNED while the member's
+// lease is locally valid; the request may have slept inside (virtual clock), so validity is judged
+// with the clock reading at the moment of return (the code's own last lease check is its last
+// clock reading before it returns). Refusing is always fine.
+func (w *world) tsoReq(c *cont, count uint32) error {
 	w.clock.set(c.idx)
+	before := w.clock.offset(c.idx)
+	ts, err := c.ta.GenerateTSO(count)
 	valid := w.modelValid(c)
-	ts, err := c.ta.GenerateTSO(1)
 	if err == nil && !valid {
-		return fmt.Errorf("%s granted a timestamp (logical %d) although it %s", c.name, ts.Logical, w.whyInvalid(c))
+		waited := w.clock.offset(c.idx) - before
+		return fmt.Errorf("%s granted a timestamp (count %d, logical %d, the request waited %v inside) although at the moment of return it %s", c.name, count, ts.Logical, waited, w.whyInvalid(c))
 	}
 	if err == nil {
 		w.info.Class("tso-granted")
@@ -1268,6 +1308,67 @@ func (w *world) doTSO(c *cont) error {
 	} else {
 		w.info.Class("tso-denied-other")
 	}
+	return nil
+}
+
+const updInterval = 50 * time.Millisecond // pdCfg.TSOUpdatePhysicalInterval
+
+var (
+	waitBefore = []time.Duration{0, time.Millisecond, updInterval - time.Millisecond, updInterval, 2 * updInterval}
+	waitTick   = []time.Duration{0, time.Millisecond, updInterval / 2}
+)
+
+// doTSOWait: a TSO request that has to wait across the local lease deadline. The member's physical
+// time is brought up to date just before the deadline (regular updater tick), its logical part is
+// used up by one big request, the clock is placed d before request-start+TTL, and the next request
+// overflows and sleeps one update interval; `tick` into that sleep the background updater runs
+// once (only if the lease still looks alive to it, as AllocatorManager.updateAllocator checks).
+func (w *world) doTSOWait(c *cont, op Op) error {
+	w.clock.set(c.idx)
+	d := waitBefore[((op.N%len(waitBefore))+len(waitBefore))%len(waitBefore)]
+	tick := waitTick[((op.T%len(waitTick))+len(waitTick))%len(waitTick)]
+	const gap = 2 * time.Millisecond
+	target := c.expire - d - gap
+	if !w.modelValid(c) || !c.ta.IsInitialize() || w.clock.offset(c.idx)+saveInterval+time.Millisecond > target {
+		w.info.Class("tsowait-not-applicable")
+		return nil
+	}
+	// the updater's last regular tick before the deadline (guarded window save, all write oracles apply)
+	w.clock.atLeast(c.idx, target-saveInterval-time.Millisecond)
+	if err := w.doWrite(c, Op{K: "write", W: "tso-update"}); err != nil || w.info.Inconclusive {
+		return err
+	}
+	if !w.modelValid(c) {
+		return nil
+	}
+	if err := w.tsoReq(c, 1<<18-2); err != nil {
+		return err
+	}
+	w.clock.atLeast(c.idx, c.expire-d)
+	w.takeEvents()
+	ran := false
+	w.clock.arm(c.idx, tick, func() {
+		if c.ls.Check() {
+			ran = true
+			c.ta.UpdateTSO()
+		}
+	})
+	err := w.tsoReq(c, 10)
+	w.clock.arm(c.idx, 0, nil)
+	evs := w.takeEvents()
+	if err != nil {
+		return fmt.Errorf("request entered %v before the local lease deadline, updater tick %v into its sleep (ran: %v): %v", d, tick, ran, err)
+	}
+	if err := w.checkAppliedWrites(evs); err != nil {
+		return err
+	}
+	if envFailure(evs) {
+		w.info.Inconclusive = true
+		return nil
+	}
+	w.info.Class("tsowait")
+	w.info.ClassIf(ran, "tsowait-updater-ran-during-sleep")
+	w.info.ClassIf(!w.modelValid(c), "tsowait-woke-after-deadline")
 	return nil
 }
 
@@ -1703,6 +1804,8 @@ func runCase(c Case) (info vkit.Info, rerr error) {
 			err = w.doWrite(w.resolve(op), op)
 		case "tso":
 			err = w.doTSO(w.resolve(op))
+		case "tsowait":
+			err = w.doTSOWait(w.resolve(op), op)
 		case "checkleader":
 			err = w.doCheckLeader(w.resolve(op))
 		case "dcput":
